@@ -94,3 +94,77 @@ Example C03_nonvacuous_refused_draws :
      three rows on screen: A (kept), B (kept or live), C *)
   region_count (s_mp s') = 3 /\ ms_attempt 20 (s_mp s') false None 27 = false.
 Proof. vm_compute. repeat split. Qed.
+
+(* ================================================================== screen level (model/MultiScreen.v) *)
+(** C03_log.  Scope as C02_screen (docs/C03.md): Top alignment, no I/O faults, the MultiProgress on
+    a terminal, no bar with a terminal of its own, proviso [FitsAll]; ANY sequence of calls, any
+    number of bars, every limiter state / time stamp - histories whose ordinary draws are all
+    refused included -, every finish / drop order.
+    [hist_log] is read off the calls alone: the lines of every MultiProgress::println, of every
+    ProgressBar::println through a member, and every line written by a suspend closure, in call
+    order.  After the history the rows ever written on the terminal are [pre], then EXACTLY the
+    wrapping of these lines - each once, in emission order -, then the kept rows and the live
+    region (whose row counts are zombie_lines_count and last_line_count), then blank rows only;
+    and no printed line is still waiting in orphan_lines. *)
+From IndModel Require Import MultiScreen.
+From IndProofs Require Import MultiScreenProofs.
+
+Theorem C03_log : forall (W H : N) (pre : list (list N)) (s0 : sys) (t0 : term) (h : list (N * op)),
+  1 <= W -> 1 <= H ->
+  ms_initial s0 -> ready (N.to_nat W) (N.to_nat H) pre t0 -> FitsAll W H s0 h ->
+  let s := fst (fst (ms_run W H (s0, mghost0, t0) h)) in
+  let g := snd (fst (ms_run W H (s0, mghost0, t0) h)) in
+  let t := snd (ms_run W H (s0, mghost0, t0) h) in
+  mg_log g = hist_log W H s0 h
+  /\ (exists k, screen (N.to_nat W) t
+        = map (pad (N.to_nat W)) (pre ++ wrap (N.to_nat W) (hist_log W H s0 h) ++ mg_kept g ++ mg_live g)
+          ++ repeat (repeat SP (N.to_nat W)) k)
+  /\ length (mg_kept g) = N.to_nat (ms_zombie_lines (s_mp s))
+  /\ length (mg_live g) = N.to_nat (target_n (ms_target (s_mp s)))
+  /\ ms_orphans (s_mp s) = [].
+Proof. exact c03_log. Qed.
+Print Assumptions C03_log.
+
+(** ... after EVERY call of the history *)
+Theorem C03_log_every_op : forall (W H : N) (pre : list (list N)) (s0 : sys) (t0 : term)
+    (h1 h2 : list (N * op)), 1 <= W -> 1 <= H ->
+  ms_initial s0 -> ready (N.to_nat W) (N.to_nat H) pre t0 -> FitsAll W H s0 (h1 ++ h2) ->
+  let s := fst (fst (ms_run W H (s0, mghost0, t0) h1)) in
+  let g := snd (fst (ms_run W H (s0, mghost0, t0) h1)) in
+  let t := snd (ms_run W H (s0, mghost0, t0) h1) in
+  mg_log g = hist_log W H s0 h1
+  /\ (exists k, screen (N.to_nat W) t
+        = map (pad (N.to_nat W)) (pre ++ wrap (N.to_nat W) (hist_log W H s0 h1) ++ mg_kept g ++ mg_live g)
+          ++ repeat (repeat SP (N.to_nat W)) k)
+  /\ length (mg_kept g) = N.to_nat (ms_zombie_lines (s_mp s))
+  /\ length (mg_live g) = N.to_nat (target_n (ms_target (s_mp s)))
+  /\ ms_orphans (s_mp s) = [].
+Proof. exact c03_log_every_prefix. Qed.
+Print Assumptions C03_log_every_op.
+
+(* ------------------------------------------------------------------ non-vacuity (screen level) *)
+(** the refused-draws witness above (1 Hz limiter, most ticks skipped, a bar reaped at the head
+    while draws are refused), preceded by an earlier shell line, followed by a member println and a
+    suspend: the hypotheses hold, and the computed screen shows every printed line once, in order *)
+Definition ex3_ops2 : list (N * op) :=
+  ex3_ops ++ [(27, OPrintln 2 [109;49;10;109;50]); (28, OMSuspend [[115]]); (29, OTick 2)].
+
+Example C03_log_hypotheses_satisfiable :
+  ms_initial ex3_s0 /\ FitsAll 4 50 ex3_s0 ex3_ops2
+  /\ ready 4 50 [[36]] (run_ops 4 50 term_init [TLine [36]]).
+Proof.
+  split.
+  - split.
+    + intros b. unfold get_bar, nthN. destruct (N.to_nat b) as [|[|[|[|n]]]]; exact I.
+    + eexists. repeat split. intros i ls Hi. unfold nthN in Hi. cbn in Hi.
+      destruct (N.to_nat i); discriminate Hi.
+  - split; [vm_compute; repeat (split || intro)|].
+    exact (ready_start 4 50 [[36]] 0 1 ltac:(lia)).
+Qed.
+
+Example C03_log_example :
+  let st := ms_run 4 50 (ex3_s0, mghost0, run_ops 4 50 term_init [TLine [36]]) ex3_ops2 in
+  hist_log 4 50 ex3_s0 ex3_ops2 = [[108;49]; [108;50]; [109;49]; [109;50]; [115]]
+  /\ mg_log (snd (fst st)) = [[108;49]; [108;50]; [109;49]; [109;50]; [115]]
+  /\ screen 4 (snd st) = map (pad 4) [[36]; [108;49]; [108;50]; [109;49]; [109;50]; [115]; [67;48]].
+Proof. vm_compute. repeat split. Qed.
